@@ -193,6 +193,35 @@ class Ctx:
         res["out"] = out
         return res
 
+    def apalache_inductive(self, module, cinit, init, inv, must_hold=True, timeout=300):
+        """One-step inductiveness of inv by Apalache (symbolic: integers are unbounded).  A model-level result:
+        never a verdict on the code; a failed or timed-out expectation is inconclusive."""
+        d = self._tlc_dir()
+        cmd = ["apalache-mc", "check", "--cinit=" + cinit, "--init=" + init, "--inv=" + inv, "--length=1",
+               "--out-dir=" + os.path.join(d, "apalache-out"), module + ".tla"]
+        t = time.time()
+        try:
+            r = subprocess.run(cmd, cwd=d, capture_output=True, text=True, timeout=timeout)
+        except subprocess.TimeoutExpired:
+            raise Inconclusive("Apalache timed out after %ds on %s/%s" % (timeout, module, cinit))
+        except FileNotFoundError:
+            raise Inconclusive("apalache-mc not found")
+        out = r.stdout + r.stderr
+        with open(os.path.join(d, "apalache.out"), "w") as f:
+            f.write(out)
+        noerr = "The outcome is: NoError" in out
+        err = "The outcome is: Error" in out
+        if not (noerr or err):
+            raise Inconclusive("Apalache failed on %s/%s rc=%d:\n%s" % (module, cinit, r.returncode, out[-2000:]))
+        res = dict(module=module, cfg="apalache --cinit=%s --init=%s --inv=%s --length=1" % (cinit, init, inv),
+                   ok=noerr, expected="inductive" if must_hold else "not inductive (negative control)",
+                   generated=0, distinct=0, violated=None if noerr else inv, wall_s=round(time.time() - t, 1))
+        self.mc_runs.append(res)
+        if noerr != must_hold:
+            raise Inconclusive("Apalache: %s/%s expected %s, got %s (spec problem, see %s)"
+                               % (module, cinit, res["expected"], "NoError" if noerr else "Error", d))
+        return res
+
     def tlc_trace(self, module, cfg, trace_path, timeout=900, extra_files=(), dfs=False):
         """Validate one (possibly concatenated) ND-JSON trace.  Returns dict(accepted, consumed, total)."""
         d = self._tlc_dir()
